@@ -5,7 +5,7 @@
    verbatim shadow of radia() that is itself compared with the real kernel on every traced crop day.  These are the two
    quantities C09_assimilation_nonneg_partial (Prop_C09b) assumes to be >= 0.  Only statements here. *)
 From Coq Require Import ZArith Reals List Bool.
-From Hermes Require Import Num RUtil CropModel CropProofs RadiaModel RadiaProofs.
+From Hermes Require Import Num RUtil CropModel CropProofs CropNModel RadiaModel RadiaProofs.
 Import ListNotations.
 Local Open Scope R_scope.
 
@@ -40,6 +40,22 @@ Theorem C09_light_response_true_functions : forall x : rd_in (T:=R),
   0 <= ro_dgac (rd_light x) /\ 0 <= ro_dgao (rd_light x).
 Proof. exact rd_light_true. Qed.
 
+(* radia() as a whole, head and tail composed, with the TRUE logarithm and exponential: on a day with daylight, the sun above the
+   horizon at noon, efficiency, radiation, LAI, the transpiration ratio and the potential maintenance >= 0 and - when there is no
+   radiation record - a sunshine duration >= 0 (a leftover missing-value marker refutes it: Prop_C09b), the kernel returns
+   0 <= MAINT <= GPHOT: gross assimilation is never negative, maintenance never exceeds it (net assimilation >= 0), and
+   GTW = GPHOT + ASPOO >= 0 for every assimilate pool >= 0 - the hypothesis the organ and pool theorems of Prop_C09 start from *)
+Theorem C09_radia_nonneg_true_functions : forall (x : rd_in (T:=R)) (trrel vswell maint_pot : R) (cold : bool),
+  0 <= rd_dle x -> 0 < rd_dl x -> 0 <= rd_drc x -> 0 <= fst (rd_eff_amax x) ->
+  0 < rd_sslae x <= 1 -> 0 <= rd_lai x ->
+  rd_logx x = ln (ro_xarg (rd_light x)) -> rd_logy x = ln (ro_yarg (rd_light x)) ->
+  rd_elai x = exp (- (8 / 10) * rd_lai x) ->
+  rd_ec x = exp (ro_ecarg (rd_light x)) -> rd_eo x = exp (ro_eoarg (rd_light x)) ->
+  0 <= trrel -> 0 <= maint_pot -> (rd_rad x = 0 -> 0 <= rd_sund x) ->
+  let '(gphot, maint) := radia_of x trrel vswell maint_pot cold in
+  0 <= maint <= gphot /\ (forall aspoo, 0 <= aspoo -> 0 <= gphot + aspoo).
+Proof. exact radia_nonneg_true. Qed.
+
 (* non-vacuity: a May day of a C3 crop under CO2 method 2 meets every hypothesis of the oracle form *)
 Example C09d_nonvacuous :
   let x := radia_example in
@@ -50,3 +66,4 @@ Proof. exact radia_nonvacuous. Qed.
 Print Assumptions C09_amax_floor_and_efficiency.
 Print Assumptions C09_light_response_nonneg.
 Print Assumptions C09_light_response_true_functions.
+Print Assumptions C09_radia_nonneg_true_functions.
